@@ -121,3 +121,10 @@ Proof.
       apply Qplus_le_compat; assumption.
   - apply Hs. apply nth_In. exact Hn2.
 Qed.
+
+Lemma degenerate_iff l : degenerate l = true <-> l <> [] /\ qmin l == qmax l.
+Proof.
+  unfold degenerate. destruct l as [|a t].
+  - split; [discriminate|intros [H _]; congruence].
+  - rewrite Qeq_bool_iff. split; [intros H; split; [discriminate|exact H]|intros [_ H]; exact H].
+Qed.
